@@ -2,8 +2,8 @@
 From Coq Require Import List Bool NArith.
 Import ListNotations.
 From JS Require Import Model.Base Model.Shape Model.Sem Model.Merger Model.Infer Model.Api
-  Proofs.MergerConverge Proofs.SourcesSound.
-From JS Require Import Model.Lexer Model.Walk Model.TextApi Model.JsonRef Proofs.TextComplete Proofs.TextLift.
+  Proofs.MergerConverge Proofs.SourcesSound Proofs.MergerAbsorb.
+From JS Require Import Model.Lexer Model.Walk Model.TextApi Model.JsonRef Proofs.TextComplete Proofs.TextLift Proofs.TextAbsorb.
 
 (* merging the same source shape a second time changes nothing, whatever has been accumulated:
    for every well-formed a and every OneOf-free s (all inferred shapes are) without an Array<Null> node *)
@@ -27,14 +27,50 @@ Theorem C09_repeat_widens : forall ds d s s', from_sources_tree ds = Ok s ->
 Proof. exact sources_monotone. Qed.
 Print Assumptions C09_repeat_widens.
 
-(* PARTIAL. Full statement of the property (not proved in general; covered by correspondence + oracle):
-     forall h d, In d h -> forall k >= 1,
-       equiv (from_sources (h ++ repeat d k)) (from_sources h) /\
-       from_sources (h ++ repeat d (k+1)) = from_sources (h ++ repeat d k).
-   Proved: the second clause whenever d is the LAST element of h (C09_sources_converge) and, for
-   d anywhere, the pairwise core C09_add_twice for arbitrary accumulated shapes under
-   no_null_array; the first clause in the direction "nothing is removed".
-   The hypothesis no_null_array cannot be dropped for ARBITRARY accumulated shapes: *)
+(* THE PROPERTY IN FULL (d anywhere in h, no side condition on d): for every source sequence h that
+   infers (from_sources h = Ok m) and every d in h there is ONE shape m1 such that
+   from_sources (h ++ [d]*(k+1)) = Ok m1 for every k — the shape stops changing after at most one
+   re-addition — and m1 admits exactly the documents m admits. *)
+Theorem C09_readd : forall h d m, from_sources_tree h = Ok m -> In d h ->
+  exists m1, (forall k, from_sources_tree (h ++ repeat d (S k)) = Ok m1) /\
+             (forall x, mem x m1 = mem x m).
+Proof. exact sources_readd. Qed.
+Print Assumptions C09_readd.
+
+(* the two clauses in the property's own wording:
+   meaning(from_sources(h+[d]*k)) == meaning(from_sources(h))  for every k *)
+Theorem C09_readd_meaning : forall h d m k m', from_sources_tree h = Ok m -> In d h ->
+  from_sources_tree (h ++ repeat d k) = Ok m' -> forall x, mem x m' = mem x m.
+Proof. exact sources_readd_meaning. Qed.
+Print Assumptions C09_readd_meaning.
+
+(* from_sources(h+[d]*(k+1)) == from_sources(h+[d]*k)  for every k >= 1 *)
+Theorem C09_readd_stable : forall h d m k, from_sources_tree h = Ok m -> In d h ->
+  from_sources_tree (h ++ repeat d (S (S k))) = from_sources_tree (h ++ repeat d (S k)).
+Proof. exact sources_readd_stable. Qed.
+Print Assumptions C09_readd_stable.
+
+(* re-adding never fails *)
+Theorem C09_readd_ok : forall h d m k, from_sources_tree h = Ok m -> In d h ->
+  exists m', from_sources_tree (h ++ repeat d k) = Ok m'.
+Proof. exact sources_readd_ok. Qed.
+Print Assumptions C09_readd_ok.
+
+(* when the merged shape of h contains no OneOf, not even the first re-addition changes anything *)
+Theorem C09_readd_unchanged_free : forall h d m, from_sources_tree h = Ok m -> oneof_free m = true -> In d h ->
+  forall k, from_sources_tree (h ++ repeat d k) = Ok m.
+Proof. exact sources_absorb_free. Qed.
+Print Assumptions C09_readd_unchanged_free.
+
+(* "at most one" is tight: the first re-addition may change the representation once *)
+Theorem C09_readd_changes_once : exists h d, In d h /\
+  from_sources_tree (h ++ [d]) <> from_sources_tree h /\
+  from_sources_tree (h ++ [d; d]) = from_sources_tree (h ++ [d]).
+Proof. exact readd_changes_once. Qed.
+Print Assumptions C09_readd_changes_once.
+
+(* The pairwise core for ARBITRARY accumulated shapes (which the property does not quantify over)
+   keeps the hypothesis no_null_array, and it cannot be dropped there: *)
 Theorem C09_add_twice_needs_hypothesis : exists a s, wf a = true /\ wf s = true /\ oneof_free s = true /\
   merger (merger a s) s <> merger a s /\
   merger (merger (merger a s) s) s = merger (merger a s) s.
@@ -48,6 +84,14 @@ Theorem C09_text_converge : forall srcs ds s d sd sh, Forall2 text_of srcs ds ->
   forall k, from_sources_m cfg_now ((srcs ++ [s]) ++ repeat s k) = Ok sh.
 Proof. exact text_sources_converge. Qed.
 Print Assumptions C09_text_converge.
+
+(* on TEXTS, in full: a source text already among the source texts, any position *)
+Theorem C09_text_readd : forall srcs ds s sh, Forall2 text_of srcs ds -> In s srcs ->
+  from_sources_m cfg_now srcs = Ok sh ->
+  exists sh1, (forall k, from_sources_m cfg_now (srcs ++ repeat s (S k)) = Ok sh1) /\
+              (forall x, mem x sh1 = mem x sh).
+Proof. exact text_sources_readd. Qed.
+Print Assumptions C09_text_readd.
 
 Example C09_nonvacuous :
   let h := [JArr [JNum]; JArr [JNum; JStr]] in
